@@ -100,6 +100,8 @@ func runLBHealth(x *X) {
 		manyClients = append(manyClients, fmt.Sprintf("10.%d.%d.%d", 1+j%7, (j*37)%251, 1+(j*11)%250))
 	}
 	var steps []string
+	added := false
+	addedWeight := 0
 
 	observe := func() *healthObs {
 		if !x.Settle(onErr) {
@@ -387,7 +389,63 @@ func runLBHealth(x *X) {
 	}
 
 	for i := 0; i < nSteps && !x.dead; i++ {
-		switch c.Pick([]int{8, 4, 3, 4, 2, 2, 2, 2, 2}, "step") {
+		switch c.Pick([]int{8, 4, 3, 4, 2, 2, 2, 2, 2, 1, 1}, "step") {
+		case 10: // the operator switches the strategy: health state and its reporting carry over
+			ns := strategies[c.Intn(5, "new-strategy")]
+			x.Do("set-strategy", func() {
+				if err := h.lb.SetStrategy(ns); err != nil {
+					panic(err)
+				}
+			}, onErr)
+			strategy = ns
+			steps = append(steps, "strategy("+ns+")")
+			x.Logf("step strategy %s", ns)
+		case 9: // biased pattern: every backend is failing and gets ejected; the operator adds a fresh
+			// healthy one through the admin path: it is eligible at once (it was never ejected)
+			if added || !passive {
+				continue
+			}
+			added = true
+			net.mu.Lock()
+			for _, b := range net.order {
+				b.mode = "s500"
+			}
+			net.mu.Unlock()
+			x.Fault("backend-s500")
+			for j := 0; j < threshold*len(net.order)+2 && !x.dead; j++ {
+				cl := manyClients[c.Intn(len(manyClients), "client")]
+				x.Do("req", func() { h.do(reqSpec{client: cl, path: "/storm"}) }, onErr)
+				if !stepObserve() {
+					break
+				}
+			}
+			nm := fmt.Sprintf("b%d", len(net.order))
+			host := fmt.Sprintf("10.1.0.%d:80", len(net.order)+1)
+			net.add(nm, host, "")
+			addedWeight = 1 + c.Intn(3, "w")
+			x.Do("add", func() {
+				if err := h.lb.AddBackend(config.BackendConfig{Name: nm, Address: "http://" + host, Weight: addedWeight}); err != nil {
+					panic(err)
+				}
+			}, onErr)
+			steps = append(steps, "all-fail-then-add("+nm+")")
+			x.Logf("step add %s", nm)
+			if !stepObserve() {
+				break
+			}
+			for j := 0; j < 2 && !x.dead; j++ {
+				cl := manyClients[c.Intn(len(manyClients), "client")]
+				x.Do("req", func() { h.do(reqSpec{client: cl, path: "/after-add"}) }, onErr)
+				if !stepObserve() {
+					break
+				}
+			}
+			net.mu.Lock()
+			for _, b := range net.order {
+				b.mode = "ok"
+			}
+			net.mu.Unlock()
+			continue
 		case 8: // biased pattern: a failing answer lands at the very instant a probe round runs, so
 			// that the ejection and the processing of a (successful) probe result interleave
 			if !active || !passive {
@@ -599,7 +657,7 @@ func runLBHealth(x *X) {
 		case "least_connections":
 			// hold one request per backend so that each becomes the unique minimum in turn
 			var plans []*reqPlan
-			for j := 0; j < nb && !x.dead; j++ {
+			for j := 0; j < len(net.order) && !x.dead; j++ {
 				p := &reqPlan{hold: true}
 				plans = append(plans, p)
 				s.Spawn("rec-hold", func() {
@@ -635,6 +693,7 @@ func runLBHealth(x *X) {
 				}
 				total += w
 			}
+			total += addedWeight
 			for j := 0; j < 2*total && !x.dead; j++ {
 				x.Do("rec", func() {
 					if r := h.do(reqSpec{client: "192.0.2.50", path: "/recover"}); r.status != 200 {
